@@ -112,7 +112,11 @@ def gen_case(rng, kind=None, backend=None):
         else:
             idx = sorted(rng.sample(range(n), rng.randint(2, max(2, n - 2))))
             ops.append({"op": "subset", "member": m, "indices": idx, "values": [str(Fraction(rng.randint(-20, 20), 2)) for _ in idx]})
-    return {"kind": kind, "backend": backend, "dt": dt, "axis": axis, "k": k, "E": E, "series": series, "ops": ops if kind == "opt" else []}
+    spec = {"kind": kind, "backend": backend, "dt": dt, "axis": axis, "k": k, "E": E, "series": series, "ops": ops if kind == "opt" else []}
+    if kind == "opt" and backend == "csv" and rng.random() < 0.6:
+        # initial_state.csv for some of the members only: it overrides that member's history at t0
+        spec["initial_state"] = [None if rng.random() < 0.45 else {"x": str(Fraction(rng.randint(-12, 12), 4))} for _ in range(E)]
+    return spec
 
 
 # ---- input folders ---------------------------------------------------------------------------------------
@@ -122,6 +126,10 @@ def fl(v):
 
 def write_csv_folder(folder, spec, m):
     os.makedirs(folder, exist_ok=True)
+    ini = (spec.get("initial_state") or [None] * spec["E"])[m]
+    if ini:
+        with open(os.path.join(folder, "initial_state.csv"), "w") as fh:
+            fh.write(",".join(ini) + "\n" + ",".join(repr(fl(v)) for v in ini.values()) + "\n")
     s = spec["series"][str(m)]
     names = list(s)
     with open(os.path.join(folder, "timeseries_import.csv"), "w") as fh:
@@ -498,6 +506,9 @@ def compare(ctx, spec, obs, vals, keys):
         elif key[0] == "history":
             _, m, nm = key
             ht, hv = dec_zs(it), dec_vals(it)
+            ini = (spec.get("initial_state") or [None] * spec["E"])[m]
+            if ini and nm in ini:
+                ht, hv = [0], [Fraction(ini[nm])]          # the member's own initial_state.csv wins at t0
             got = obs["history"][str(m)].get(nm)
             if got is None or got[0] != [float(t) for t in ht] or not same_vals(got[1], hv):
                 bad.append(("history", [m, nm, got], [ht, [None if x is None else float(x) for x in hv]]))
@@ -664,6 +675,7 @@ def run(ctx):
         for _ in range(ctx.n(4, 120)):
             c = gen_case(rng, "opt", "csv")
             c["ops"] = []
+            c.pop("initial_state", None)
             if c["E"] > 1:
                 c["E"] = 1
                 c["series"] = {"0": c["series"]["0"]}
